@@ -1323,6 +1323,33 @@ pub fn gen_coded_sender(rng: &mut Rng) -> Block {
     b.finish()
 }
 
+/// mode (first calldata word): 0 set the flag (slot 0), 1 write slot 5 if the flag is unset (else
+/// bump slot 1), 2 read slot 5 into slot 6
+pub fn conditional_writer_code() -> Vec<u8> {
+    let mode_is = |k: u64| Expr::Eq(Box::new(Expr::Cd(0)), Box::new(c(k)));
+    asm::assemble(&[
+        Stmt::If(mode_is(0), vec![Stmt::Sstore(c(0), add(sload(0), c(1)))], vec![]),
+        Stmt::If(
+            mode_is(1),
+            vec![Stmt::If(Expr::IsZero(Box::new(sload(0))), vec![Stmt::Sstore(c(5), c(7))], vec![Stmt::Sstore(c(1), add(sload(1), c(1)))])],
+            vec![],
+        ),
+        Stmt::If(mode_is(2), vec![Stmt::Sstore(c(6), add(sload(5), c(1)))], vec![]),
+    ])
+}
+
+/// Witness block for a read whose multi-version source vanishes: tx 0 sets the flag, tx 1 writes
+/// slot 5 only while the flag is unset, tx 2 reads slot 5; three senders.
+pub fn gen_vanished_source(rng: &mut Rng) -> Block {
+    let mut b = Builder::new(rng, SpecId::SHANGHAI, 3);
+    b.db.insert_eoa(coinbase(), U256::from(1u64), 0);
+    b.db.insert_contract(contract(4), conditional_writer_code(), U256::ZERO, &[]);
+    for k in 0..3u64 {
+        b.call(rng, eoa(k as usize), contract(4), &[k], ["flag-set", "write-if-flag-unset", "read-conditional-slot"][k as usize]);
+    }
+    b.finish()
+}
+
 /// Conformance family: only MV-tracked locations are read (fees are non-zero so every reward is
 /// deferred and the beneficiary is never loaded; no creation or destruction, hence no reset
 /// markers). Transfers among few EOAs plus the data-dependent mixer contracts.
@@ -1336,9 +1363,22 @@ pub fn gen_conf(rng: &mut Rng, n_txs: usize) -> Block {
     b.db.insert_contract(contract(1), mixer_code(None), U256::ZERO, &[(0, 2), (1, 3)]);
     b.db.insert_contract(contract(0), mixer_code(Some(contract(1))), U256::from(9u64), &[(0, 1), (2, 4)]);
     b.db.insert_contract(contract(3), mover_code(), U256::ZERO, &[(0, 1), (1, 2)]);
-    for _ in 0..n_txs {
-        let from = eoa(rng.below(n_eoas));
-        let i = match rng.below(10) {
+    // a writer whose write depends on a flag another transaction sets: an attempt that ran before
+    // the flag was set writes slot 5, its re-execution writes nothing there and nobody else does,
+    // so a reader of slot 5 that saw the first attempt must be invalidated by a MISSING entry.
+    // mode (first calldata word): 0 set the flag, 1 write slot 5 if the flag is unset, 2 read slot 5
+    b.db.insert_contract(contract(4), conditional_writer_code(), U256::ZERO, &[]);
+    // one block in three opens with the pattern in block order (flag set, conditional writer,
+    // reader), each from its own sender where there are enough of them
+    let vanish = n_txs >= 3 && rng.below(3) == 0;
+    for k in 0..n_txs {
+        let scripted = vanish && k < 3;
+        let from = if scripted { eoa(k % n_eoas) } else { eoa(rng.below(n_eoas)) };
+        let i = match if scripted { 10 } else { rng.below(13) } {
+            10..=12 => {
+                let mode = if scripted { k as u64 } else { rng.below(3) as u64 };
+                b.call(rng, from, contract(4), &[mode], ["flag-set", "write-if-flag-unset", "read-conditional-slot"][mode as usize])
+            }
             0..=2 => {
                 let to = eoa(rng.below(n_eoas));
                 let v = [1u128, 1000, ETHER / 5][rng.below(3)];
